@@ -134,6 +134,7 @@ type Sim struct {
 	Stats    map[string]int
 	lastPick *G
 	hash     uint64
+	Strip    string // run directory: replaced by $D before output is digested, so digests do not depend on temp names
 }
 
 // S is the simulation in progress in this process (at most one). nil = instrumentation is inert.
@@ -659,7 +660,11 @@ func (w *Writer) Write(p []byte) (int, error) {
 	s.Chunks = append(s.Chunks, Chunk{Step: s.Steps, G: gid, Stream: w.Stream, Data: string(p), Locked: locked})
 	s.mixString(gid)
 	s.mixString(w.Stream)
-	s.mixString(string(p))
+	if s.Strip != "" && strings.Contains(string(p), s.Strip) {
+		s.mixString(strings.ReplaceAll(string(p), s.Strip, "$D"))
+	} else {
+		s.mixString(string(p))
+	}
 	lineDone := false
 	var trig bool
 	if g != nil {
